@@ -13,7 +13,7 @@ use verif_core::proptest::prelude::*;
 use verif_core::*;
 
 #[derive(Debug, Clone, PartialEq)]
-enum Req {
+pub enum Req {
     LinkAdr { dr: u8, txp: u8, mask: u16, cntl: u8 },
     RxParam { off: u8, dr2: u8, freq: u32 },
     DevStatus,
@@ -29,7 +29,7 @@ fn f24(b: &[u8]) -> u32 {
 }
 
 /// The well-formed prefix of a downlink MAC command stream, decoded from the specification's layout.
-fn parse_reqs(stream: &[u8]) -> Vec<Req> {
+pub fn parse_reqs(stream: &[u8]) -> Vec<Req> {
     let (cmds, _) = refcodec::split_cmds(stream, false);
     cmds.into_iter()
         .map(|(cid, p)| match cid {
@@ -45,7 +45,7 @@ fn parse_reqs(stream: &[u8]) -> Vec<Req> {
 }
 
 /// expected answers in request order: (cid, index of the request it answers, block id for LinkADR)
-fn expected_answers(reqs: &[Req], fixed: bool) -> Vec<(u8, usize)> {
+pub fn expected_answers(reqs: &[Req], fixed: bool) -> Vec<(u8, usize)> {
     let mut out = vec![];
     let mut i = 0;
     while i < reqs.len() {
@@ -258,6 +258,24 @@ pub fn judge(h: &History, recs: &[StepRec]) -> Result<(u32, u32), Failure> {
                 if got_cids.len() == exp_cids.len() {
                     judged += 1;
                     let mut m = M::from(&s0);
+                    // the uplink of this transaction was sent from S0: when S0 left no usable channel the
+                    // device may first have restored the regional defaults (LoRaMac-node behaviour)
+                    let restored = {
+                        let mut r = m.clone();
+                        if fixed {
+                            let need_500 = reg.dr(r.data_rate).map(|x| x.1 == 500_000).unwrap_or(false);
+                            let any = r.effective(true).iter().any(|c| (*c >= 64) == need_500);
+                            if !any {
+                                r.mask = [0xFF; 9];
+                            }
+                        } else if r.effective(false).is_empty() {
+                            for c in 0..reg.default_channels().len() {
+                                r.set(c, true);
+                            }
+                        }
+                        r
+                    };
+                    m = restored;
                     let mut ai = 0usize;
                     let mut qi = 0usize;
                     while qi < reqs.len() {
@@ -483,6 +501,7 @@ fn valid_cmd(reg: Reg) -> impl Strategy<Value = Cmd> {
     let cntls: Vec<u8> = reg.valid_chmask_cntl().to_vec();
     let nd = reg.default_channels().len() as u8;
     let maxoff = reg.max_rx1_offset();
+    let defaults = reg.default_channels();
     let f = move || (lo / 100..=hi / 100).prop_map(|x| x * 100);
     prop_oneof![
         5 => (prop_oneof![4 => (0..drs.len()).prop_map(move |i| drs[i]), 1 => Just(15u8)], prop_oneof![0u8..6, Just(15u8)], gen::mask_strategy(), (0..cntls.len()).prop_map(move |i| cntls[i]), 0u8..4).prop_map(|(dr, txp, mask, cntl, nbtrans)| Cmd::LinkAdrReq { dr, txp, mask, cntl, nbtrans }),
@@ -491,6 +510,7 @@ fn valid_cmd(reg: Reg) -> impl Strategy<Value = Cmd> {
         3 => (nd..16u8, prop_oneof![4 => f().boxed(), 1 => Just(0u32).boxed()], prop_oneof![Just(0x50u8), Just(0x30u8), Just(0x52u8)]).prop_map(|(idx, freq, dr_range)| Cmd::NewChannelReq { idx, freq, dr_range }),
         2 => (0u8..16).prop_map(Cmd::RxTimingSetupReq),
         2 => (0u8..8, f()).prop_map(|(idx, freq)| Cmd::DlChannelReq { idx, freq }),
+        1 => (0usize..8, 0usize..3).prop_map(move |(idx, k)| Cmd::DlChannelReq { idx: idx as u8, freq: defaults.get(k.min(defaults.len().saturating_sub(1))).copied().unwrap_or(lo) }),
         1 => any::<u8>().prop_map(Cmd::DutyCycleReq),
         1 => (any::<u8>(), any::<u8>()).prop_map(|(margin, gw)| Cmd::LinkCheckAns { margin, gw }),
     ]
